@@ -110,6 +110,8 @@ type opSpec struct {
 	Kind   string `json:"kind"` // get | put | del | app | inc | cas
 	Key    evid.B `json:"key"`
 	Marker string `json:"marker"`
+	// SkipBatch: the call asks not to be batched (it travels as its own request, not inside a multi)
+	SkipBatch bool `json:"skip_batch,omitempty"`
 }
 
 func genOp(t *rapid.T, l layoutSpec, kinds []string, n *int) opSpec {
@@ -227,6 +229,9 @@ func buildCall(ctx context.Context, table string, op opSpec, opts ...func(hrpc.C
 		// a nil row is not a request (the protobuf row field is required); the empty row
 		// is the smallest key
 		op.Key = evid.B{}
+	}
+	if op.SkipBatch {
+		opts = append(opts[:len(opts):len(opts)], hrpc.SkipBatch())
 	}
 	switch op.Kind {
 	case "get":
